@@ -142,6 +142,23 @@ func c01Scenarios(tier string) []*world.Scenario {
 			}
 		}
 	}
+	// configurations: two connections per node (replies of one client's requests to the same node may then arrive
+	// in either order), a password + replica topology (handshakes interleave with the first requests)
+	for _, p := range [][]string{{"FA", "FA"}, {"FA", "FA", "PING"}, {"M2", "FA"}, {"FA", "D2", "FA"}, {"FA", "FB", "FA"}} {
+		for _, one := range []bool{true, false} {
+			sc := c01Scenario([][]string{p}, one, 2)
+			sc.ServerConns = 2
+			sc.Name += "/2conns"
+			sc.Family += "/2conns"
+			out = append(out, sc)
+			sc2 := c01Scenario([][]string{p}, one, 2)
+			sc2.Nodes, sc2.Password = T3(), "secret"
+			sc2.Clients[0] = withAuthExpect(sc2.Clients[0], p)
+			sc2.Name += "/pw+replicas"
+			sc2.Family += "/pw+replicas"
+			out = append(out, sc2)
+		}
+	}
 	// multi-key requests that can only be routed in part (one key in an unowned range) are answered locally
 	// while an already routed fragment is still in flight; everything after them must still be answered in order
 	out = append(out, c01Partial(tier)...)
@@ -156,6 +173,16 @@ func c01Scenarios(tier string) []*world.Scenario {
 		}
 	}
 	return out
+}
+
+// withAuthExpect: with a configured password "AUTH pw" (wrong password) is answered with the invalid-password error.
+func withAuthExpect(cs world.ClientSpec, kinds []string) world.ClientSpec {
+	for j, k := range kinds {
+		if k == "AUTH" {
+			cs.Expect[j] = []byte(world.RErrAuthBad)
+		}
+	}
+	return cs
 }
 
 func c01Partial(tier string) []*world.Scenario {
